@@ -64,6 +64,26 @@ func checkC24(c *Ctx) (string, []string) {
 		}
 		c.Check(okT, "C24.transition", A+"STFAlpha2AlphaPrime · bound", truncSt.Pos(), "after every append the pool is cut to its last O entries when longer than O", "an appended pool can leave the function (or the iteration) longer than O entries")
 	}
+	c.checkCondSet("C24.transition", A+"STFAlpha2AlphaPrime", stf, []string{
+		"((*types.AuthPools).Validate(alloc:types.AuthPools) != nil)", "(* < types.CoresCount)", "(* < len(p1))", "(0 < types.CoresCount)", "(0 == len(p3[*]))",
+		"(" + O + " < len(" + al + "[*]))", "(" + A + "updatePoolFromQueue(p1[*].Report.CoreIndex, p1[*], " + al + ")#0 == nil)", "(" + A + "updatePoolFromQueue(p1[*].Report.CoreIndex, p1[*], " + al + ")#1 != nil)",
+	})
+	{
+		// every guarantee reaches the removal: from the loop test of the guarantee loop, the next iteration is not reachable without the call
+		var loopIf *ssa.If
+		allInstrs(stf, func(in ssa.Instruction) {
+			if i, ok := in.(*ssa.If); ok && exprStr(i.Cond, shapeOpts) == "(* < len(p1))" {
+				loopIf = i
+			}
+		})
+		ok := loopIf != nil
+		if ok {
+			body := []edge{{loopIf.Block(), 0}}
+			_, skip := findPath(pathQuery{startEdges: body, target: func(in ssa.Instruction) bool { return in == ssa.Instruction(loopIf) }, blocker: func(in ssa.Instruction) bool { return calleeFunc2(in) == upd }})
+			ok = !skip
+		}
+		c.Check(ok, "C24.transition", A+"STFAlpha2AlphaPrime · every guarantee", stf.Pos(), "each guarantee of the block reaches the removal of its authorizer", "a guarantee can be passed over without removing its authorizer from its core's pool")
+	}
 	c.checkEffects("C24.transition", A+"updatePoolFromQueue", upd, abbrAll(effectShapesOpt(upd, func(n string) bool { return strings.Contains(n, "RemoveLeftMost") }, false)), []string{
 		"call (*types.AuthPool).RemoveLeftMostPairedValue(cell(p2[p0]), p1.Report.AuthorizerHash)",
 		"store &p2[p0] ← *cell(p2[p0])",
